@@ -26,4 +26,4 @@ one() {
   git -C /repo worktree remove --force $WT
 }
 export -f one
-ls benign | grep -v BENIGN | xargs -P ${PAR:-5} -I{} bash -c "one {}"
+ls benign | grep -v BENIGN | grep -E "${BENIGN_IDS:-.}" | xargs -P ${PAR:-5} -I{} bash -c "one {}"
